@@ -423,7 +423,8 @@ pub fn c05_cases(thorough: bool) -> Vec<C05Case> {
         mk("different_value_base_two_phase", two_phase.clone(), Dev::ValueBase, false),
     ];
     if thorough {
-        let big = Shape::new("pad4", &[Commit, Commit, Commit, AllocMul, Mul, Alloc, Con, ConCommitted], &[&[Chal, AllocMul, Con]]);
+        // the constraint over committed values comes first, so that coefficient draw #3 belongs to it
+        let big = Shape::new("pad4", &[Commit, Commit, Commit, ConCommitted, AllocMul, Mul, Alloc, Con], &[&[Chal, AllocMul, Con]]);
         v.push(mk("different_commitment_pad8", big.clone(), Dev::ReplaceV(2), true));
         v.push(mk("reordered_pad8", big.clone(), Dev::SwapV(0, 2), true));
         v.push(mk("changed_coefficient_pad8", big.clone(), Dev::Coeff(3), false));
